@@ -35,6 +35,9 @@ func checkC11(p *Prog, r *Report) {
 	ruleCallbackClose(p, r, sp)
 	ruleDiscardNonNeg(p, r, sp)
 	ruleAdjustChain(p, r)
+	ruleBoxTbl(p, r)
+	ruleBoxPure(p, r)
+	r.Floor("BOXPURE", 1)
 	r.Floor("ADJ", 1)
 	r.Floor("NONNEG", 8)
 	r.Floor("CBCLOSE", 4)
